@@ -81,7 +81,7 @@ def modelTransform : TransformConsts :=
 /-! ### the formulas written with the constants -/
 
 /-- The order guard as coded: `order < lo or order > hi`. -/
-def orderRejectedCoded (c : NoiseConsts) (order : ℤ) : Bool := decide (order < c.orderLo) || decide (order > c.orderHi)
+def orderRejectedCoded (c : NoiseConsts) (order : ℤ) : Prop := order < c.orderLo ∨ order > c.orderHi
 
 /-- `_estimate_noise_variance` past the order guard, with the source's offsets. -/
 def noiseVar1Coded (c : NoiseConsts) (q : ℕ) (d : ℕ → ℚ) (L : ℕ) (x : ℕ → ℚ) : ℚ :=
